@@ -554,6 +554,88 @@ def case_stale_view(ctx, r, B):
                      repro=R.script(f'row = {row!r}\nassert F(v.energy(row)) == poly_value(v, row), (v.energy(row), poly_value(v, row))\n'))
 
 
+# ------------------------------------------------------------------------------------------ label -> column resolution
+
+def vstate_tok(v):
+    """sparse internal state of a `Variables` object in the driver's format: stop|idx=label,...|label=idx,..."""
+    i2l, l2i, stop = v.__reduce__()[2][:3]
+    a = ','.join(f'{int(i)}={lab(l)}' for i, l in i2l.items()) or '-'
+    b = ','.join(f'{lab(l)}={int(i)}' for l, i in l2i.items()) or '-'
+    return f'{stop}|{a}|{b}'
+
+
+def case_range_labels(ctx, r, B):
+    """array back-ends whose variables are integers NOT stored as 0..n-1 ascending (or a subset of the sample's range),
+    evaluated on samples labelled exactly 0..k-1: unlabelled arrays, (array, range), dicts / lists of dicts with sorted
+    integer keys, SampleSets with sorted labels.  Both `Variables` objects go to the model in their sparse form."""
+    from dimod.variables import Variables
+    R = Recipe()
+    k = r.choice([1, 2, 3, 4, 5])
+    sub = r.random() < .35
+    mlabels = perm_of(r, r.sample(range(k), r.randint(1, k)) if sub else range(k))
+    kindm = r.choice(['bqm64', 'bqm32', 'qm'])
+    # how the model came to store its variables out of order: added in that order, or added as 0..n-1 and relabelled
+    # (a different sparse state of the `Variables` object: `_relabel` writes both maps)
+    build = r.choice(['insert', 'insert', 'relabel'])
+    tmp = {l: (i if build == 'relabel' else l) for i, l in enumerate(mlabels)}
+    if kindm == 'qm':
+        R.do('m = QM()')
+        vts = {}
+        for l in mlabels:
+            vts[l] = r.choice(['BINARY', 'SPIN', 'INTEGER'])
+            R.do(f'm.add_variable({vts[l]!r}, {tmp[l]!r}' + (', lower_bound=-4, upper_bound=8)' if vts[l] == 'INTEGER' else ')'))
+            R.do(f'm.set_linear({tmp[l]!r}, {fl(q8(r))})')
+        dom = lambda l: domain(vts[l]) if l in vts else [0, 1]  # noqa
+        site = 'QM.energies'
+    else:
+        vt = r.choice(['SPIN', 'BINARY'])
+        R.do(f'm = BQM({vt!r}, dtype={"np.float64" if kindm == "bqm64" else "np.float32"})')
+        for l in mlabels:
+            R.do(f'm.add_variable({tmp[l]!r}, {fl(q8(r))})')
+        vts = {l: vt for l in mlabels}
+        dom = lambda l: domain(vt)  # noqa
+        site = 'BQM.energies' if kindm == 'bqm64' else 'BQM[float32].energies'
+    for _ in range(r.choice([0, 1, 2, 4])):
+        u, v = r.choice(mlabels), r.choice(mlabels)
+        if u == v and vts[u] != 'INTEGER':
+            continue
+        R.do(f'm.add_quadratic({tmp[u]!r}, {tmp[v]!r}, {fl(q8(r))})')
+    R.do(f'm.offset = {fl(q8(r))}')
+    if build == 'relabel':
+        R.do(f'm.relabel_variables({ {t: l for l, t in tmp.items() if t != l}!r}, inplace=True)')
+        ctx.tick('range: model relabelled into its order')
+    m = R['m']
+    nrows = r.choice([1, 2, 3])
+    rows = [{l: r.choice(dom(l)) for l in range(k)} for _ in range(nrows)]
+    mat = [[row[l] for l in range(k)] for row in rows]
+    sperm = perm_of(r, range(k))
+    encs = [('array (unlabelled)', f'np.array({mat!r})'), ('list (unlabelled)', repr(mat)),
+            ('array+range', f'(np.array({mat!r}), range({k}))'), ('array+sorted list', f'(np.array({mat!r}), {list(range(k))!r})'),
+            ('dicts sorted keys', '[' + ', '.join(dict_lit(row, list(range(k))) for row in rows) + ']'),
+            ('dict sorted keys', dict_lit(rows[0], list(range(k)))),
+            ('sampleset sorted', f'SampleSet.from_samples((np.array({[[row[l] for l in sperm] for row in rows]!r}), {sperm!r}), "INTEGER", energy={[0] * nrows!r}, sort_labels=True)')]
+    ic = 'integer labels stored out of order, samples labelled 0..k-1' + (' (model uses a subset)' if sub else '')
+    for name, expr in encs:
+        erows = rows[:1] if name == 'dict sorted keys' else rows
+        ctx.tick(f'{site}:{name}')
+        ctx.case((site, tuple(R.lines[4:]), expr), nontrivial=True)
+        repro = R.script(f'enc = {expr}\nrows = {erows!r}\ngot = [F(e) for e in m.energies(enc)]\n'
+                         'exp = [poly_value(m, row) for row in rows]\nassert got == exp, (got, exp)\n')
+        try:
+            got = [F(e) for e in m.energies(R.ev(expr))]
+        except Exception as e:  # noqa
+            ctx.fail('property', site, ic, f'{type(e).__name__}: {e} ({name})', repro=repro)
+            continue
+        exp = [poly_value(m, row) for row in erows]
+        if got != exp:
+            ctx.fail('property', site, ic, f'{name}: energies {list(map(str, got))} but the reported polynomial gives {list(map(str, exp))}', repro=repro)
+            continue
+        arr, slabels = dimod.as_samples(R.ev(expr), labels_type=Variables)
+        l_, a_, o_ = qmb_tokens(m, r=r)
+        B.add(f'cyenergiesv {l_} {a_} {o_} {vstate_tok(m.variables)} {rows_tok([[F(x) for x in rr] for rr in np.asarray(arr).tolist()])} {vstate_tok(slabels)}',
+              enc_energies(got), site, ic, f'm.energies({expr})', detail=dict(model=R.lines[4:]))
+
+
 # ------------------------------------------------------------------------------------------ DQM
 
 DQM_ORACLE = ''
@@ -657,13 +739,18 @@ def case_dqm(ctx, r, B, children):
     if labels:
         row = {l: r.randrange(cases[l]) for l in labels}
         v = r.choice(labels)
-        kindbad = r.choice(['missing', 'case == num_cases', 'case > num_cases', 'negative case', 'negative case', 'case == -num_cases'])
+        kindbad = r.choice(['missing', 'case == num_cases', 'case > num_cases', 'negative case', 'negative case', 'case == -num_cases',
+                            'case below the total', 'case below the total'])
         if kindbad == 'missing':
             bad = {l: x for l, x in row.items() if l != v}
         else:
             bad = dict(row)
+            total = sum(cases.values())
+            if kindbad == 'case below the total' and total <= cases[v]:
+                kindbad = 'case == num_cases'
             bad[v] = {'case == num_cases': cases[v], 'case > num_cases': cases[v] + r.randint(1, 40), 'negative case': -r.randint(1, 3),
-                      'case == -num_cases': -cases[v]}[kindbad]
+                      'case == -num_cases': -cases[v],
+                      'case below the total': r.randint(cases[v], max(cases[v], total - 1))}[kindbad]   # in another variable's range
         ctx.tick('DQM.energies:' + kindbad)
         ctx.case(('DQM.bad', tuple(R.lines[4:]), repr(bad)), nontrivial=True)
         enc_expr = dict_lit(bad, list(bad))
@@ -678,7 +765,8 @@ def case_dqm(ctx, r, B, children):
             '''))
         line = mirror([[F(bad[l]) for l in bad]], list(bad))
         children.append((script, 'DQM.energies', 'sample omits a variable' if kindbad == 'missing' else
-                         ('negative case' if 'negative' in kindbad or kindbad == 'case == -num_cases' else 'case >= num_cases'),
+                         ('negative case' if 'negative' in kindbad or kindbad == 'case == -num_cases' else
+                          'case >= num_cases(u) but below the total number of cases' if kindbad == 'case below the total' else 'case >= num_cases'),
                          f'd.energies({enc_expr}) with cases {cases}', line, dict(model=R.lines[4:])))
     else:
         ctx.tick('DQM.energies:no variables')
@@ -771,7 +859,7 @@ def run(ctx):
                 'permuted columns, SampleSet, plain arrays); a case = one energies call or one as_samples call; non-trivial = the '
                 'model has variables and the call evaluates at least one row; distinct by (construction script, target, encoding)')
     for i in range(n):
-        kind = r.choice(['bqm', 'bqm', 'qm', 'qm', 'cqm', 'cqm', 'cqm', 'dqm', 'poly', 'as', 'as', 'as', 'wide', 'wide', 'stale', 'stale'])
+        kind = r.choice(['bqm', 'bqm', 'qm', 'qm', 'cqm', 'cqm', 'cqm', 'dqm', 'poly', 'as', 'as', 'as', 'wide', 'wide', 'stale', 'stale', 'range', 'range'])
         ctx.tick('model:' + kind)
         if kind == 'bqm':
             case_bqm(ctx, r, B)
@@ -787,6 +875,8 @@ def run(ctx):
             case_wide(ctx, r, B)
         elif kind == 'stale':
             case_stale_view(ctx, r, B)
+        elif kind == 'range':
+            case_range_labels(ctx, r, B)
         else:
             check_as_samples(ctx, r, B)
         if len([f for f in ctx.failures if f['kind'] == 'property']) >= 12:
